@@ -737,6 +737,30 @@ func GenProgram(r *Rng, prop string, cfg Config, gp GenParams) *Program {
 			add(Step{K: "merge", A: "mergeAll"})
 			add(Step{K: "persist"})
 		}
+		if store && r.Chance(1, 4) {
+			// the other close order: the store goes first, right after a
+			// persistence round has published its footer (and while the
+			// persister has not yet returned it to the collection), the
+			// collection is read afterwards and closed last
+			add(Step{K: "batch", B: g.batch()})
+			add(Step{K: "merge", A: "plain"})
+			if r.Chance(2, 3) {
+				add(Step{K: "persist", P: "store.persist.end"})
+			} else {
+				add(Step{K: "persist"})
+			}
+			add(Step{K: "closestore", A: "first"})
+			add(Step{K: "resume", A: "persister"})
+			add(Step{K: "check"})
+			if gp.Handles {
+				add(Step{K: "snap", H: nextH})
+				nextH++
+				add(Step{K: "check"})
+			}
+			add(Step{K: "closecoll"})
+			add(Step{K: "check"})
+			return p
+		}
 		if store && r.Chance(1, 3) {
 			// close while a persistence round is parked in mid-flight
 			add(Step{K: "batch", B: g.batch()})
